@@ -223,4 +223,61 @@ def commandOK (s : Scenario) (ridKey : String) (gate : Bool) (infos : List PodIn
   firstV [atMostOne cmd, strictlyCheaper s ridKey cmd, spotToSpot s ridKey gate cmd, onDemandFallback s ridKey cmd,
           emptyRule s infos cmd, feasibleHome s ridKey infos cmd cands witnessOnly]
 
+/-! ### Price tables per NodePool
+
+"Price tables including overlays": the price of an instance type / offering is a property of the NodePool that buys it —
+a NodeOverlay (or the provider) may select on the NodePool, so two NodePools that share a NodeClass may price the same
+offering differently.  `Tables` lists, per NodePool, the catalog as that NodePool is charged for it; a NodePool without an
+entry is charged the scenario's catalog.  A removed node costs what ITS NodePool pays for its offering; a launch of the
+replacement costs what the replacement's NodePool pays for it. -/
+
+abbrev Tables := List (String × List IT)
+
+/-- the scenario as NodePool `pool` sees (and is charged for) the catalog -/
+def poolView (t : Tables) (s : Scenario) (pool : String) : Scenario :=
+  match t.lookup pool with
+  | some its => { s with its := its }
+  | none => s
+
+/-- combined price of the removed nodes, each at its own NodePool's price -/
+def combinedPriceT (t : Tables) (s : Scenario) (cands : List String) : Nat :=
+  ((cands.filterMap s.node?).map (fun n => (nodePrice (poolView t s n.pool) n).getD 0)).sum
+
+def strictlyCheaperT (t : Tables) (s : Scenario) (ridKey : String) (cmd : Command) : Verdict :=
+  let total := combinedPriceT t s cmd.cands
+  firstV (cmd.repl.map (fun c =>
+    firstV (c.its.map (fun itn =>
+      match (poolView t s c.pool).it? itn with
+      | none => some ("price", s!"replacement names unknown instance type {itn}")
+      | some it =>
+        match (launches ridKey c.reqs it).find? (fun o => decide (total ≤ o.price)) with
+        | some o => some ("price", s!"replacement option {itn} may launch in {o.zone}/{o.ct} at {o.price}/1024, not below the removed nodes' combined {total}/1024")
+        | none => none))))
+
+def spotToSpotT (t : Tables) (s : Scenario) (ridKey : String) (gate : Bool) (cmd : Command) : Verdict :=
+  firstV (cmd.repl.map (fun c =>
+    if allSpot s cmd.cands && (c.reqs.get ctKey).has "spot" then
+      if !gate then some ("spot-to-spot", "spot nodes are replaced by a request that may launch spot although SpotToSpotConsolidation is disabled")
+      else if cmd.cands.length == 1 && (launchableTypes (poolView t s c.pool) ridKey c).length < spotFloor then
+        some ("spot-to-spot", s!"single spot node replaced with only {(launchableTypes (poolView t s c.pool) ridKey c).length} launchable cheaper options (< {spotFloor})")
+      else none
+    else none))
+
+def onDemandFallbackT (t : Tables) (s : Scenario) (ridKey : String) (cmd : Command) : Verdict :=
+  if !(cmd.cands.filterMap s.node?).any (fun n => n.ct == "on-demand") then none else
+  let total := combinedPriceT t s cmd.cands
+  firstV (cmd.repl.map (fun c =>
+    firstV ((c.its.filterMap (poolView t s c.pool).it?).map (fun it =>
+      match (launches ridKey c.reqs it).find? (fun o => o.ct == "on-demand" && decide (total ≤ o.price)) with
+      | some o => some ("od-fallback", s!"an on-demand node is replaced by a request that may fall back to on-demand {it.name} in {o.zone} at {o.price}/1024 ≥ {total}/1024")
+      | none => none))))
+
+/-- the whole property on one command, prices per NodePool.  (The feasible-home clause reads the catalog as the
+    replacement's NodePool sees it: that is the NodePool the replacement is launched for.) -/
+def commandOKT (t : Tables) (s : Scenario) (ridKey : String) (gate : Bool) (infos : List PodInfo) (cmd : Command) (cands : List String)
+    (witnessOnly : Bool := true) : Verdict :=
+  let sR := match cmd.repl with | c :: _ => poolView t s c.pool | [] => s
+  firstV [atMostOne cmd, strictlyCheaperT t s ridKey cmd, spotToSpotT t s ridKey gate cmd, onDemandFallbackT t s ridKey cmd,
+          emptyRule s infos cmd, feasibleHome sR ridKey infos cmd cands witnessOnly]
+
 end Karp.Spec.Consolidation
